@@ -12,7 +12,8 @@ class Problem:
     pass
 
 
-def make_problem(rng, N=None, profile=None, n_offsets=None, poly_trend=None, kkind=None, tmpdir=None, lib_units=None):
+def make_problem(rng, N=None, profile=None, n_offsets=None, poly_trend=None, kkind=None, tmpdir=None, lib_units=None,
+                 t_ref_kind=None):
     """A data set + prior + tagged library. Surveys (if any) are chronological and passed as a list, so the
     known survey-label defect cannot interfere with what these checks decide."""
     pb = Problem()
@@ -30,7 +31,8 @@ def make_problem(rng, N=None, profile=None, n_offsets=None, poly_trend=None, kki
     sig = dict(P=float(10 ** rng.uniform(0.3, 2)), K=float(10 ** rng.uniform(0.5, 1.3)),
                v0=float(rng.normal() * 10), phase=float(rng.uniform(0, 6.28)))
     dspec = gen.gen_data_spec(rng, n_surveys=n_off + 1, n_epochs=max(nep, n_off + 1), layout="disjoint",
-                              err_scale=es, signal=sig, unit=str(rng.choice(["km/s", "m/s"], p=[.8, .2])))
+                              err_scale=es, signal=sig, unit=str(rng.choice(["km/s", "m/s"], p=[.8, .2])),
+                              t_ref_kind=t_ref_kind if n_off == 0 else None)
     if n_off:
         dspec["form"] = "list"
         dspec["keys"] = None
